@@ -1621,21 +1621,29 @@ class Interp:
                 return base._attrs["__getitem__"](key)
             self.fail(node, f"subscript of {base!r} is not modelled")
         if isinstance(base, Vec):
-            v: Any = base
-            for k in key:
+            def index(v, keys):
+                if not keys:
+                    return v
+                k, rest = keys[0], keys[1:]
+                if k is None or k is Ellipsis:
+                    return index(v, rest)
+                if not isinstance(v, Vec):
+                    self.fail(node, "too many indices for a fixed-length vector")
                 if k is ALL:
-                    continue
+                    return Vec([index(x, rest) for x in v.items]) if rest else v
                 if isinstance(k, tuple) and k and k[0] == "slice":
                     lo, hi, st = (to_py(x) for x in k[1:])
-                    v = Vec(v.items[slice(lo, hi, st)])
-                    continue
-                if k is None:
-                    continue
+                    sub = Vec(v.items[slice(lo, hi, st)])
+                    return Vec([index(x, rest) for x in sub.items]) if rest else sub
+                if isinstance(k, (list, tuple)) and all(isinstance(to_py(i), int) for i in k):
+                    sub = type(v)([v.items[to_py(i)] for i in k])
+                    return Vec([index(x, rest) for x in sub.items]) if rest else sub
                 kk = to_py(k)
                 if not isinstance(kk, int):
                     self.fail(node, "symbolic index into a fixed-length vector")
-                v = v.items[kk]
-            return v
+                return index(v.items[kk], rest)
+
+            return index(base, list(key))
         if isinstance(base, IdxArr):
             if len(key) != 1:
                 self.fail(node, "multi-index into 1-d array")
@@ -1734,6 +1742,8 @@ class Interp:
 
         def _isinstance(obj, cls):
             classes = cls if isinstance(cls, tuple) else (cls,)
+            standins = {id(I.builtins[n]): t for n, t in (("int", int), ("float", float), ("tuple", tuple), ("list", list), ("dict", dict), ("bool", bool), ("set", set)) if n in I.builtins}
+            classes = tuple(standins.get(id(c), c) for c in classes)
             for c in classes:
                 if isinstance(obj, Model) and obj._cls is not None and isinstance(c, ClassRef):
                     if obj._cls.is_subclass_of(c.info):
